@@ -44,6 +44,7 @@ type Engine struct {
 	modulePath string
 	fileHashes map[string]string
 	guards     map[string]GuardDecl // "pkgpath.Struct.field" -> decl
+	compRef map[string]string
 	compPkg    map[string]string    // component -> package path of the named type it belongs to
 	tables     map[*ssa.Global]*tableFact
 	addrTaken  map[*ssa.Function]bool
@@ -358,7 +359,22 @@ func (e *Engine) resolveTypeOpt(pkg *types.Package, x ast.Expr) types.Type {
 				}
 			}
 		}
-		return nil
+		// a /repo type named from another package's contract (unique name)
+		var found types.Type
+		for _, sp := range e.spkgs {
+			if sp.Pkg == nil || !e.inRepo(sp.Pkg) {
+				continue
+			}
+			if obj := sp.Pkg.Scope().Lookup(t.Name); obj != nil {
+				if tn, ok := obj.(*types.TypeName); ok {
+					if found != nil && !types.Identical(found, tn.Type()) {
+						return nil
+					}
+					found = tn.Type()
+				}
+			}
+		}
+		return found
 	case *ast.StarExpr:
 		if el := e.resolveTypeOpt(pkg, t.X); el != nil {
 			return types.NewPointer(el)
@@ -502,6 +518,28 @@ func (e *Engine) contractFunc(c *Contract) *ssa.Function {
 }
 
 // notePkg records which package a heap component belongs to: the package of the (innermost) named type.
+// noteRefKind records whether the values of a heap component are references ("ref"), slices ("slice") or
+// neither (""), with "/elem" for element components (two-level arrays).
+func (e *Engine) noteRefKind(comp string, t types.Type, elem bool) {
+	if e.compRef == nil {
+		e.compRef = map[string]string{}
+	}
+	if _, ok := e.compRef[comp]; ok {
+		return
+	}
+	k := ""
+	switch t.Underlying().(type) {
+	case *types.Pointer, *types.Map, *types.Chan:
+		k = "ref"
+	case *types.Slice:
+		k = "slice"
+	}
+	if k != "" && elem {
+		k += "/elem"
+	}
+	e.compRef[comp] = k
+}
+
 func (e *Engine) notePkg(comp string, t types.Type) {
 	if e.compPkg == nil {
 		e.compPkg = map[string]string{}
